@@ -919,6 +919,11 @@ func newMonitorRequest(data *mapper.Info, fields []string, conditions []ovsdb.Co
 		columns = append(columns, fields...)
 	} else {
 		for c := range data.Metadata.TableSchema.Columns {
+			// a column the model has no field for can not be stored, and a
+			// change notification that carries it is rejected as a whole
+			if _, ok := data.Metadata.Fields[c]; !ok {
+				continue
+			}
 			columns = append(columns, c)
 		}
 	}
